@@ -23,7 +23,7 @@ MANIFEST = {
 }
 THEOREMS = ["C07_only_real_bad_debt", "C07_equity_is_unweighted", "C07_only_real_bad_debt_unweighted",
             "C07_unweighted_assets_refuted", "C07_insurance_first", "C07_socialize_loss",
-            "C07_socialize_in_ledger_worlds", "C07_loss_shared_pro_rata", "C07_debt_cleared_account_disabled", "C07_who_may_call"]
+            "C07_socialize_in_ledger_worlds", "C07_loss_shared_pro_rata", "C07_debt_cleared_account_disabled", "C07_who_may_call", "C07_hypotheses_hold_in_wellformed_worlds"]
 RULE = ("level C (suite hops / hopsref, real handlers in the sim runtime): scenario stream = 1-3 depositors of very different sizes in "
         "the debt bank, insurance vault funded through collect_bank_fees to a chosen balance (0, 1, bad debt -1/=/+1, half, double), "
         "a debtor posting collateral in another bank and borrowing (a fraction or ALL of the liquidity, optionally two debtors), "
